@@ -254,7 +254,7 @@ Record lock_inv (cs : list N) (p : path) (st : zstate) : Prop := {
 
 Definition op_client (o : zop) : option N :=
   match o with
-  | OCreate c _ _ _ | OSet c _ _ _ | OGet c _ | ODelete c _ | OChildren c _ | OAcquire c _ | ORelease c _ | OExpire c => Some c
+  | OCreate c _ _ _ | OSet c _ _ _ | OGet c _ | ODelete c _ | OChildren c _ | OAcquire c _ | ORelease c _ | OExpire c | ODrop c => Some c
   | _ => None
   end.
 (* mysync touches a lock path only through AcquireLock / ReleaseLock (and reads) *)
@@ -434,6 +434,9 @@ Proof.
     + intros n Hn. rewrite tget_tput_other by exact Wp. exact Hn.
     + intros q n c0 Hq Hv. destruct (list_eq_dec N.eq_dec (normalize p0) q) as [<-|NE]; [rewrite tget_tput_same in Hq; inversion Hq; subst n; discriminate Hv|].
       rewrite tget_tput_other in Hq by exact NE. exact Hq.
+  - (* the connection is cut and re-established: only the beliefs are dropped *)
+    cbn [fst]. apply (inv_with_client cs p st c {| zc_session := zc_session (cget (zs_clients st) c); zc_cache := [] |}); [exact I|reflexivity|].
+    intros t0 _ H. discriminate H.
 Qed.
 
 (* the invariant holds initially and along every well-formed history of any length *)
